@@ -2,6 +2,7 @@ import ChythonModel.Proofs.C15Compose
 import ChythonModel.Proofs.C15Format
 import ChythonModel.Proofs.C15Equivariant
 import ChythonModel.Proofs.C15Read
+import ChythonModel.Proofs.C15Cx
 import ChythonModel.Model.C15CgrTokens
 import ChythonModel.Model.C15Read
 /-!
@@ -317,21 +318,18 @@ theorem writer_groups (rad : List Str → List Bool) (R A P : List (List Str)) :
 theorem format_default_is_sorted_keep (R A P : List MolSig) :
     formatCore false R A P = formatCore true (sortRole false R) (sortRole false A) (sortRole false P) := rfl
 
-/-- Full statement (text level): reading the complete written text — signature, blank, CXSMILES block — restores the
-    role partition. -/
+/-- Statement at text level: reading the complete written text — signature, blank, CXSMILES block (`^1:` radical block,
+    `f:` fragment block) — restores the role partition and the molecules. -/
 def RxnReadWriteRolesFull : Prop :=
   ∀ (rad : List Str → List Bool) (R A P : List (List Str)), WrittenOK R → WrittenOK A → WrittenOK P → R ++ A ++ P ≠ [] →
     (∀ m ∈ R ++ A ++ P, ∀ f ∈ m, ∀ c ∈ f, isSpace c = false) →
     readRxn (formatRxn true false (R.map (sigOf rad)) (A.map (sigOf rad)) (P.map (sigOf rad))) =
       .roles (R.map (join chDot)) (A.map (join chDot)) (P.map (join chDot))
 
-/-- **rxn_read_write_roles_partial.** Proved part of `RxnReadWriteRolesFull`: for all role lists (any number of
-    molecules per role incl. empty roles — no products, no reagents —, any number of components per molecule) the
-    reader applied to the written signature string and to the written fragment groups returns the written roles and
-    molecules. Missing for the full statement: that rendering the groups as `|…,f:0.1,3.4|` and re-parsing them
-    (`split()`, regular expression `cx_fragments`, `int()`) is the identity — that step is tied by the correspondence
-    stream `read` (flavour `written`) only. -/
-theorem rxn_read_write_roles_partial (rad : List Str → List Bool) (R A P : List (List Str))
+/-- **rxn_read_write_roles (structured level).** For all role lists (any number of molecules per role incl. empty
+    roles — no products, no reagents —, any number of components per molecule) the reader applied to the written
+    signature string and to the written fragment groups returns the written roles and molecules. -/
+theorem rxn_read_write_roles_structured (rad : List Str → List Bool) (R A P : List (List Str))
     (hR : WrittenOK R) (hA : WrittenOK A) (hP : WrittenOK P) (hne : R ++ A ++ P ≠ []) :
     let out := formatCore true (R.map (sigOf rad)) (A.map (sigOf rad)) (P.map (sigOf rad))
     readSmi (join chGt (out.roles.map (join chDot))) (some out.contract) =
@@ -341,6 +339,32 @@ theorem rxn_read_write_roles_partial (rad : List Str → List Bool) (R A P : Lis
   have h2 : out.roles = [R.map (join chDot), A.map (join chDot), P.map (join chDot)] := formatCore_roles rad R A P
   rw [h2]
   exact read_written R A P hR hA hP hne out.contract h1
+
+/-- **cx_block_roundtrip.** Any signature (without whitespace) followed by the CXSMILES block rendered from radical
+    indices `idx` and normalised fragment groups `gs` is split by `data.split()`, recognised as a CXSMILES token and
+    analysed by `search(cx_fragments)` + `int` + `sorted` + collision test back to exactly `gs` (`None` without
+    groups): `str(n)`/`int`, `','.join`/regex are inverse on what the writer emits. -/
+theorem cx_block_roundtrip (roles : List (List Str)) (idx : List Nat) (gs : List (List Nat))
+    (hsp : ∀ c ∈ join chGt (roles.map (join chDot)), isSpace c = false)
+    (hne : join chGt (roles.map (join chDot)) ≠ [])
+    (hgs : ∀ g ∈ gs, 2 ≤ g.length)
+    (hnorm : gs.map sortNats = gs ∧ ¬ (gs.flatten.eraseDups.length < gs.flatten.length)) :
+    readRxn (render false ⟨roles, idx, gs⟩) = readSmi (join chGt (roles.map (join chDot))) (groupsOpt gs) :=
+  readRxn_render roles idx gs hsp hne hgs hnorm
+
+/-- **rxn_read_write_roles.** The full statement: `smiles(format(reaction, '!c'))` has the written roles and molecules,
+    for all role lists (0…n molecules per role, multi-component molecules, radical marks anywhere). -/
+theorem rxn_read_write_roles : RxnReadWriteRolesFull :=
+  fun rad R A P hR hA hP hne hsp => read_format rad R A P hR hA hP hne hsp
+
+/-- the same for the default (sorted) signature: the molecules of every role are restored (in the canonical order) -/
+theorem rxn_read_write_roles_sorted (rad : List Str → List Bool) (R A P : List (List Str))
+    (hR : WrittenOK R) (hA : WrittenOK A) (hP : WrittenOK P) (hne : R ++ A ++ P ≠ [])
+    (hsp : ∀ m ∈ R ++ A ++ P, ∀ f ∈ m, ∀ c ∈ f, isSpace c = false) :
+    ∃ R' A' P' : List (List Str), R'.Perm R ∧ A'.Perm A ∧ P'.Perm P ∧
+      readRxn (formatRxn false false (R.map (sigOf rad)) (A.map (sigOf rad)) (P.map (sigOf rad))) =
+        .roles (R'.map (join chDot)) (A'.map (join chDot)) (P'.map (join chDot)) :=
+  read_format_sorted rad R A P hR hA hP hne hsp
 
 /-- non-trivial instance: `C.C>O>` with the reactant a two-component molecule and no products
     (the input class of the repaired defect) -/
